@@ -3,6 +3,7 @@
 Decided from MIR summaries: which key is looked up on which container and what happens on absence, for
 identifier references, `facts`, symbols, user-function names and .field/.index steps; and that the evaluator
 passes the node's own name / index to these lookups."""
+import re
 import dispatch
 import evalsum
 import optable
@@ -121,7 +122,16 @@ def run(res, f, tier):
         bad = [m for m in mm if m["kind"] == kind]
         # only the wiring of the lookup is C10's (the evaluation order of Function/Index arguments is C05's)
         def wiring(xs):
-            return sorted(set(e for x in xs if isinstance(x, dict) for e in x["events"] if e.startswith(("ctx", "op"))))
+            # (lookup, the node's own fields handed to it): further arguments are not C10's
+            out = set()
+            for x in xs:
+                if not isinstance(x, dict):
+                    continue
+                for e in x["events"]:
+                    if e.startswith(("ctx ", "op ")):
+                        w = e.split(" ")
+                        out.add(" ".join(w[:2] + [a.rstrip(",") for a in w[2:] if re.fullmatch(r"self\.\w+\.\d+,?", a)]))
+            return sorted(out)
         ok = not bad or wiring(bad[0]["missing"]) == wiring(bad[0]["unexpected"])
         ob(ok, "C10|dispatch|%s" % kind, "node kind %s does not pass its own name / index to the lookup" % kind,
            {"expected": wiring(bad[0]["missing"]) if bad else None, "actual": wiring(bad[0]["unexpected"]) if bad else None})
